@@ -1015,6 +1015,7 @@ fn key_bounds(c: &mut Ctx) {
 }
 
 pub fn run(c: &mut Ctx) {
+    c.families(2);
     let mut log = Log(std::fs::File::create(c.logdir.join(format!("tsig_{}.jsonl", c.shard))).ok());
     if c.shard == 0 && !c.replaying() {
         key_bounds(c);
